@@ -179,13 +179,19 @@ package document
 //@ requires te != nil
 //@ modifies nothing
 
-// renderTemplateWithOverrides walks up the parent chain (finite: a parent is always a template loaded
-// earlier; termination not claimed - partial). The merged override table is a fresh map per level; the
-// DefinedBlocks tables of the template and of its ancestors are only read.
+// chainOlder(t): along the parent chain of t every parent was allocated before its child. This is how the engine builds
+// chains: parseTemplate links the template being loaded (allocated by this LoadTemplate call) to a template fetched from
+// the cache (loaded by an earlier call); Parent is assigned nowhere else. A data invariant of every template built through
+// the API (a hand-made cycle t.Parent = t violates it and makes the real code recurse forever).
+//@ spec chainOlder(t *Template) bool = t == nil || t.Parent == nil || (objId(t.Parent) < objId(t) && chainOlder(t.Parent))
+
+// renderTemplateWithOverrides walks up the parent chain. Termination is PROVED (no `partial`): the measure is the
+// allocation id of the template, which decreases along an API-built chain (chainOlder). The merged override table is a
+// fresh map per level; the DefinedBlocks tables of the template and of its ancestors are only read.
 //@ func (*TemplateEngine).renderTemplateWithOverrides
 //@ props C17
-//@ partial
-//@ requires te != nil && template != nil && data != nil
+//@ requires te != nil && template != nil && data != nil && chainOlder(template)
+//@ decreases objId(template)
 //@ modifies nothing
 //@ loop 1
 //@   invariant unchangedHeap() && merged != nil && fresh(merged)
@@ -194,5 +200,5 @@ package document
 
 //@ func (*TemplateEngine).renderTemplate
 //@ props C17
-//@ requires te != nil && template != nil && data != nil
+//@ requires te != nil && template != nil && data != nil && chainOlder(template)
 //@ modifies nothing
